@@ -197,7 +197,7 @@ def unit_cldice(ctx, ndim):
         tsens = z3.ToReal(cXSY) / z3.ToReal(cSY)
         defined = z3.And(cSX > 0, cSY > 0, cYSX + cXSY > 0)
         ctx.oblige(f"{nm}/post(harmonic mean of skeleton-coverage fractions)#p{pi}", q.pc,
-                   z3.Implies(defined, res == 2 * tprec * tsens / (tprec + tsens)), func=fn)
+                   z3.Implies(defined, res == 2 * tprec * tsens / (tprec + tsens)), func=fn, replay="c06.cldice", info={"ndim": ndim})
 
 
 def build(ctx):
@@ -218,6 +218,8 @@ def build(ctx):
 
 
 def concretise(ctx, o, r):
+    if o.replay == "c06.cldice":
+        return {"ndim": o.info.get("ndim")}
     if o.replay != "c06.metric":
         return None
     ev = r.get("evals") or {}
